@@ -533,7 +533,7 @@ class UserIdentityNegotiationSubItemAc(object):
 
         :return: item length
         """
-        return 2 + len(self.server_response)
+        return 2 + len(self.server_response.encode())
 
     @property
     def total_length(self):
